@@ -321,13 +321,19 @@ int main() {
         out.push_back(in);
       }
     };
-    std::vector<Inj> presets;
-    parse_inj(w[6], presets);
+    // presets and targets may differ per cycle: variants separated by '#', cycle k uses variant min(k, last)
+    std::vector<std::vector<Inj>> presetsv;
+    for (auto& pv : split(w[6], '#')) { presetsv.emplace_back(); parse_inj(pv, presetsv.back()); }
+    if (presetsv.empty()) presetsv.emplace_back();
     std::vector<std::vector<Inj>> injectors;
     if (w[7] != "-") for (auto& th : split(w[7], '|')) { injectors.emplace_back(); parse_inj(th, injectors.back()); }
-    std::vector<int> targets;
+    std::vector<std::vector<int>> targetsv;
     bool kmode = w[3][0] == 'K';   // committer program on the data of the graph (no run): see below
-    if (!kmode) for (auto& t : split(w[8], ',')) { targets.push_back(atoi(t.c_str())); nd = std::max(nd, targets.back() + 1); }
+    if (!kmode) for (auto& tv : split(w[8], '#')) {
+      targetsv.emplace_back();
+      for (auto& t : split(tv, ',')) { targetsv.back().push_back(atoi(t.c_str())); nd = std::max(nd, targetsv.back().back() + 1); }
+    }
+    if (targetsv.empty()) targetsv.emplace_back();
 
     // build the graph; vertices are added in a seed-dependent order (the engine must not depend on it)
     HExec exec; exec.inplace = inplace; exec.rng = seed | 1; exec.xmode = inflight;
@@ -362,7 +368,7 @@ int main() {
       for (auto& vd : ctx.vs) { for (auto& d : vd.deps) { used.insert(d.tgt); if (d.cnd >= 0) used.insert(d.cnd); } for (int e : vd.emits) used.insert(e); }
       for (int d = 0; d < nd; ++d) if (used.count(d)) { ctx.data[d] = graph->find_data("d" + std::to_string(d)); if (!ctx.data[d]) missing = true; }
     }
-    for (int t : targets) if (!ctx.data[t]) missing = true;
+    for (auto& tv : targetsv) for (int t : tv) if (!ctx.data[t]) missing = true;
     if (missing) { printf("%s buildfail-unknown-target\n", id.c_str()); fflush(stdout); continue; }
 
     if (kmode) {
@@ -413,6 +419,8 @@ int main() {
       ctx.runs.assign(nv, 0); ctx.acts.assign(nv, 0); ctx.inputs.assign(nv, "");
       ctx.pubs.assign(nd, 0); ctx.in_process = 0;
       exec.q.clear();
+      const std::vector<Inj>& presets = presetsv[std::min((size_t)cyc, presetsv.size() - 1)];
+      const std::vector<int>& targets = targetsv[std::min((size_t)cyc, targetsv.size() - 1)];
       for (auto& p : presets) if (ctx.data[p.d]) publish(ctx.data[p.d], p.d, p.empty, p.v, nullptr);
       int code = 12345; bool stop = false; bool finished_after_get = false;
       std::vector<int> injvalid; size_t inj_done = 0;
